@@ -151,7 +151,7 @@ def _text_arrays(rng):
     words = ['apple', 'Apple', 'banana', 'b?n*', 'cherry', '', 'a*', 'APPLE', 'ch?rry']
     for n in range(1, 5):
         for _ in range(60):
-            arr = [rng.choice(words[:6]) for _ in range(n)]
+            arr = [rng.choice(words[:6] + [3, 2.5, True, None]) for _ in range(n)]
             for x in words:
                 yield [x, arr, 0]
 
@@ -159,14 +159,14 @@ def _text_arrays(rng):
 @contract('hotxlfp.formulas.lookupandreference:MATCH', props=['C18'], bounded_only=True,
           reason='text lookup goes through fnmatch (assumed library contract); bounded over word lists')
 class MATCH_text:
-    args = dict(lookup_value=STR, lookup_array=SEQ(STR, minlen=1), match_type=INT)
+    args = dict(lookup_value=STR, lookup_array=SEQ(STR | NUMBERB | NONE_T, minlen=1), match_type=INT)
     domain = _text_arrays
 
     def post(lookup_value, lookup_array, match_type, out):
         import fnmatch
         a = lookup_array
         n = len(a)
-        hits = [j for j in range(n) if fnmatch.fnmatch(a[j].lower(), lookup_value.lower())]
+        hits = [j for j in range(n) if is_str(a[j]) and fnmatch.fnmatch(a[j].lower(), lookup_value.lower())]     # a non-text item never equals a text
         if lookup_value == '':
             return True       # an empty lookup text is outside the statement
         if hits:
